@@ -90,10 +90,12 @@ type c01Op struct {
 	B    int    `json:"b"`
 	C    int    `json:"c"`
 	L    []int  `json:"l,omitempty"`
+	E    int    `json:"e,omitempty"` // error path: 0 = well-formed; >0 selects a way in which the message FAILS while executing
 }
 
 type c01Block struct {
-	Dt  int     `json:"dt"` // seconds since the previous block
+	Dt  int     `json:"dt"`          // seconds since the previous block
+	R   int     `json:"r,omitempty"` // 1 = the restart-perturbed replica is restarted from its database before this block
 	Ops []c01Op `json:"ops"`
 }
 
@@ -650,7 +652,11 @@ func (r *replica) apply(op c01Op) []abci.ResponseDeliverTx {
 		} else {
 			to = freshAddr(op.B)
 		}
-		return one(r.deliverCosmos(from, 400_000, fee, banktypes.NewMsgSend(accAddr(from), to, Unibi(int64(op.C)))))
+		amt := int64(op.C)
+		if op.E > 0 {
+			amt = 4_000_000_000_000_000_000 // more than anybody owns: fails inside the bank keeper
+		}
+		return one(r.deliverCosmos(from, 400_000, fee, banktypes.NewMsgSend(accAddr(from), to, Unibi(amt))))
 	case "multisend": // one bank tx creating several fresh accounts
 		from := w.users[op.A%nUsers]
 		var outs []banktypes.Output
@@ -663,7 +669,20 @@ func (r *replica) apply(op c01Op) []abci.ResponseDeliverTx {
 	case "ethsend":
 		to := gethcommon.BytesToAddress(freshAddr(op.B).Bytes())
 		val := new(big.Int).Mul(big.NewInt(int64(op.C)), big.NewInt(1_000_000_000_000))
-		return one(r.ethTx(op.A%nEth, &to, val, nil, 100_000))
+		egas := uint64(100_000)
+		switch op.E {
+		case 1: // more than the sender owns: rejected by the EVM ante handler
+			val = new(big.Int).Mul(big.NewInt(9_000_000_000_000_000), big.NewInt(1_000_000_000_000))
+		case 2: // gas limit below the intrinsic gas: fails inside the msg server
+			egas = 20_000
+		case 3: // a nonce from the future
+			msg, err := r.c.SignEth(r.w.eths[op.A%nEth], &evm.EvmTxArgs{Nonce: r.ethNonce(op.A%nEth) + 5, GasLimit: egas, GasPrice: gasPrice, To: &to, Amount: val})
+			if err != nil {
+				return one(abci.ResponseDeliverTx{Code: 9998, Log: err.Error()})
+			}
+			return one(r.deliverEth(msg))
+		}
+		return one(r.ethTx(op.A%nEth, &to, val, nil, egas))
 	case "deploy":
 		s, m := op.B, op.C
 		i := op.A % nEth
@@ -747,7 +766,20 @@ func (r *replica) apply(op c01Op) []abci.ResponseDeliverTx {
 	case "ftcreate":
 		u := w.users[0]
 		d := op.A % nCoins
-		res := r.deliverCosmos(u, 8_000_000, Unibi(10_000_000), &evm.MsgCreateFunToken{FromBankDenom: fmt.Sprintf("ucoin%d", d), Sender: accAddr(u).String()})
+		cmsg := &evm.MsgCreateFunToken{FromBankDenom: fmt.Sprintf("ucoin%d", d), Sender: accAddr(u).String()}
+		switch op.E {
+		case 1: // a denom without bank metadata
+			cmsg.FromBankDenom = fmt.Sprintf("unometa%d", op.A)
+		case 2: // an "ERC20" that is not a contract: fails inside the EVM calls that read its metadata
+			cmsg.FromBankDenom = ""
+			cmsg.FromErc20 = &eth.EIP55Addr{Address: gethcommon.BytesToAddress(freshAddr(770000 + op.A).Bytes())}
+		case 3: // one of the harness contracts (no ERC20 interface)
+			if len(r.contracts) > 0 {
+				cmsg.FromBankDenom = ""
+				cmsg.FromErc20 = &eth.EIP55Addr{Address: r.contracts[op.A%len(r.contracts)]}
+			}
+		}
+		res := r.deliverCosmos(u, 8_000_000, Unibi(10_000_000), cmsg)
 		if res.Code == 0 {
 			for _, a := range EventAttrs(res.Events, "eth.evm.v1.EventFunTokenCreated") {
 				var s string
@@ -759,8 +791,29 @@ func (r *replica) apply(op c01Op) []abci.ResponseDeliverTx {
 		return one(res)
 	case "ftconvert":
 		u := w.users[0]
+		camt := sdkmath.NewInt(int64(op.C))
+		cidx := op.A % nCoins
+		if _, ok := r.funtokens[cidx]; !ok && len(r.funtokens) > 0 {
+			var ks []int // prefer a FunToken that exists (deterministic choice), so that the message gets past the lookup
+			for k := range r.funtokens {
+				ks = append(ks, k)
+			}
+			sort.Ints(ks)
+			cidx = ks[op.A%len(ks)]
+		}
+		cdenom := fmt.Sprintf("ucoin%d", cidx)
+		switch op.E {
+		case 1: // more than the sender owns: fails in the bank send INSIDE the conversion
+			camt = sdkmath.NewInt(3_000_000_000_000)
+		case 2: // a sender who owns none of the coin
+			u = w.users[1+op.B%(nUsers-1)]
+		case 3: // the ERC20 representation of a coin-born FunToken sent the wrong way round
+			if a, ok := r.funtokens[cidx]; ok {
+				cdenom = "erc20/" + a.Hex()
+			}
+		}
 		return one(r.deliverCosmos(u, 8_000_000, Unibi(10_000_000), &evm.MsgConvertCoinToEvm{
-			Sender: accAddr(u).String(), BankCoin: sdk.NewCoin(fmt.Sprintf("ucoin%d", op.A%nCoins), sdkmath.NewInt(int64(op.C))),
+			Sender: accAddr(u).String(), BankCoin: sdk.NewCoin(cdenom, camt),
 			ToEthAddr: eth.EIP55Addr{Address: w.eths[op.B%nEth].EthAddr}}))
 	case "precompile":
 		i := op.A % nEth
@@ -789,7 +842,11 @@ func (r *replica) apply(op c01Op) []abci.ResponseDeliverTx {
 			input, err = embeds.SmartContract_FunToken.ABI.Pack("bankBalance", w.eths[i].EthAddr, "unibi")
 		case 3:
 			to = precompile.PrecompileAddr_FunToken
-			input, err = embeds.SmartContract_FunToken.ABI.Pack("sendToBank", erc20, big.NewInt(int64(1+op.C)), accAddr(w.users[1]).String())
+			samt := big.NewInt(int64(1 + op.C))
+			if op.E > 0 {
+				samt = new(big.Int).Lsh(big.NewInt(1), 100) // far more than the ERC20 balance: the precompile call fails after OnRunStart
+			}
+			input, err = embeds.SmartContract_FunToken.ABI.Pack("sendToBank", erc20, samt, accAddr(w.users[1]).String())
 		case 4:
 			to = precompile.PrecompileAddr_Oracle
 			input, err = embeds.SmartContract_Oracle.ABI.Pack("queryExchangeRate", string(oraclePairs[op.C%len(oraclePairs)]))
@@ -980,7 +1037,11 @@ func (r *replica) apply(op c01Op) []abci.ResponseDeliverTx {
 	case "delegate":
 		u := w.users[op.A%nUsers]
 		val := sdk.ValAddress(accAddr(w.valOps[op.B%nVals]))
-		return one(r.deliverCosmos(u, 800_000, fee, stakingtypes.NewMsgDelegate(accAddr(u), val, sdk.NewCoin("unibi", sdkmath.NewInt(int64(op.C)*1_000_000)))))
+		damt := sdkmath.NewInt(int64(op.C) * 1_000_000)
+		if op.E > 0 {
+			damt = sdkmath.NewInt(4_000_000_000_000_000_000)
+		}
+		return one(r.deliverCosmos(u, 800_000, fee, stakingtypes.NewMsgDelegate(accAddr(u), val, sdk.NewCoin("unibi", damt))))
 	}
 	return none
 }
@@ -1006,7 +1067,7 @@ func (r *replica) runBlock(b c01Block, wantStores bool) blockDigest {
 	if dt <= 0 {
 		dt = 5
 	}
-	if r.pt.restart > 0 && r.blockIdx%r.pt.restart == r.pt.restart-1 {
+	if r.pt.restart > 0 && (b.R == 1 || r.blockIdx%r.pt.restart == r.pt.restart-1) {
 		r.restartApp()
 	}
 	c.BeginBlock(time.Duration(dt) * time.Second)
@@ -1304,6 +1365,7 @@ func genDiff(r *Rng, opener int) c01Input {
 	nb := r.Range(9, 13)
 	fresh := 1000 + r.Intn(1000)*50
 	next := func() int { fresh++; return fresh }
+	prevFailed := false
 	for b := 0; b < nb; b++ {
 		blk := c01Block{Dt: 5}
 		if r.Chance(1, 6) {
@@ -1342,6 +1404,20 @@ func genDiff(r *Rng, opener int) c01Input {
 		}
 		if opener == 4 && b == 4 {
 			blk.Ops = append(blk.Ops, c01Op{Kind: "govparams", A: 0, B: 1, L: []int{3, 1, 4, 1, 5, 2, 6, 5, 3}}, c01Op{Kind: "govparams", A: 1, B: 2, L: []int{2, 0, 1, 2, 0, 1, 2, 0}})
+		}
+		if opener == 7 {
+			// failing Cosmos-side FunToken messages, then a restart of the perturbed replica, then EVM messages
+			switch {
+			case b == 0:
+				blk.Ops = append(blk.Ops, c01Op{Kind: "ftcreate", A: 0}, c01Op{Kind: "ftcreate", A: 1}, c01Op{Kind: "deploy", A: 0, B: 2, C: 3})
+			case b%2 == 1:
+				blk.Ops = append(blk.Ops, c01Op{Kind: "ftconvert", A: b % 2, B: b, C: 10 + b, E: 1 + (b/2)%3},
+					c01Op{Kind: "ftcreate", A: b, E: 1 + (b/2)%3})
+			default:
+				blk.R = 1
+				blk.Ops = append(blk.Ops, c01Op{Kind: "ethsend", A: b, B: next(), C: 3}, c01Op{Kind: "ftconvert", A: 0, B: b, C: 25},
+					c01Op{Kind: "precompile", A: b, B: b % 6, C: b}, c01Op{Kind: "call", A: b, B: 0, C: next() * 16})
+			}
 		}
 		if opener == 6 {
 			// precompile QUERY methods from txs (balance / bankBalance / whoAmI / oracle query) on FunTokens created earlier
@@ -1493,6 +1569,31 @@ func genDiff(r *Rng, opener int) c01Input {
 				blk.Ops = append(blk.Ops, c01Op{Kind: "multisend", A: r.Intn(nUsers), C: 1 + r.Intn(9), L: l})
 			}
 		}
+		// error paths: roughly one op in five fails WHILE EXECUTING (not in ValidateBasic): insufficient funds, missing
+		// metadata, non-contract ERC20, intrinsic gas, future nonce, over-large precompile amounts
+		failedFunToken := false
+		for j := range blk.Ops {
+			switch blk.Ops[j].Kind {
+			case "bank", "delegate", "ethsend", "ftconvert", "ftcreate", "precompile":
+				if r.Chance(1, 5) {
+					blk.Ops[j].E = 1 + r.Intn(3)
+				}
+			}
+			if blk.Ops[j].E > 0 && (blk.Ops[j].Kind == "ftconvert" || blk.Ops[j].Kind == "ftcreate" || blk.Ops[j].Kind == "precompile") {
+				failedFunToken = true
+			}
+		}
+		// restarts of the perturbed replica: at random, and preferably right after a block in which a FunToken / EVM
+		// message failed, with EVM traffic first thing after the restart
+		if b > 0 && (r.Chance(1, 6) || (prevFailed && r.Chance(2, 3))) {
+			blk.R = 1
+			if prevFailed {
+				pre := []c01Op{{Kind: "ethsend", A: r.Intn(nEth), B: next(), C: 1 + r.Intn(20)},
+					{Kind: "ftconvert", A: r.Intn(nCoins), B: r.Intn(nEth), C: 1 + r.Intn(300)}}
+				blk.Ops = append(pre, blk.Ops...)
+			}
+		}
+		prevFailed = failedFunToken
 		in.Blocks = append(in.Blocks, blk)
 	}
 	return in
@@ -1763,7 +1864,7 @@ func TestC01(t *testing.T) {
 	rng := NewRng(cfg.Seed)
 	for i := 0; i < cfg.N; i++ {
 		opener := 0
-		if i < 6 {
+		if i < 7 {
 			opener = i + 1
 		}
 		in := genDiff(rng.Fork(), opener)
